@@ -100,7 +100,8 @@ func resolve(sel Selector, subject ipld.Node, at []string) (ipld.Node, error) {
 				if seg.Optional() {
 					// build an empty list
 					n, _ := qp.BuildList(basicnode.Prototype.Any, 0, func(_ datamodel.ListAssembler) {})
-					return n, nil
+					cur = n
+					continue
 				}
 				return nil, newResolutionError(fmt.Sprintf("can not iterate over kind: %s", kindString(cur)), at)
 
@@ -127,7 +128,8 @@ func resolve(sel Selector, subject ipld.Node, at []string) (ipld.Node, error) {
 				if err != nil {
 					panic("should never happen")
 				}
-				return nd, nil
+				cur = nd
+				continue
 
 			default:
 				return nil, newResolutionError(fmt.Sprintf("can not iterate over kind: %s", kindString(cur)), at)
